@@ -159,7 +159,25 @@ func runProperty(id string, def propDef, repo, verif, tier string, seed int64, n
 		w.Tier = tier
 		w.Seed = seed
 		w.Verif = verif
+		w.Wants = func(rule string) bool {
+			for _, pat := range def.Rules {
+				if ruleMatches(strings.SplitN(pat, "@", 2)[0], Obligation{Rule: rule}) {
+					return true
+				}
+			}
+			return false
+		}
 		var all []Obligation
+		hasLayout := false
+		for _, g := range def.Groups {
+			if g == "layout" {
+				hasLayout = true
+			}
+		}
+		var layoutObls []Obligation
+		if !hasLayout {
+			groups["layout"](w, &layoutObls)
+		}
 		for _, g := range def.Groups {
 			f := groups[g]
 			if f == nil {
@@ -168,8 +186,24 @@ func runProperty(id string, def propDef, repo, verif, tier string, seed int64, n
 			}
 			f(w, &all)
 		}
+		// A property that does not list the layout premise (R07.store) must not
+		// raise an alarm merely because that premise failed elsewhere: obligations
+		// that could not be decided for that reason are recorded as not decided here
+		// (the layout defect itself is reported under the properties that own it).
+		premiseFailed := false
+		for _, o := range append(append([]Obligation(nil), all...), layoutObls...) {
+			if (o.Rule == "R07.store" || o.Rule == "R07.overlap") && !o.OK {
+				premiseFailed = true
+			}
+		}
+		ownsPremise := w.Wants("R07.store")
 		kept := 0
 		for _, o := range all {
+			if premiseFailed && !ownsPremise && !o.OK && strings.Contains(o.Detail, "premise R07.store failed") {
+				o.OK = true
+				o.NonTrivial = false
+				o.Detail = "not decided in this run (layout premise failed; reported under C07/C02/C06): " + o.Detail
+			}
 			for _, pat := range def.Rules {
 				if ruleMatches(pat, o) {
 					run.add(o)
@@ -184,6 +218,10 @@ func runProperty(id string, def propDef, repo, verif, tier string, seed int64, n
 		}
 		sort.Strings(fr)
 		for _, r := range fr {
+			if premiseFailed && !ownsPremise {
+				run.Notes = append(run.Notes, "instance floors not asserted: the layout premise failed, dependent rules were not decided")
+				break
+			}
 			run.floor(r, def.Floors[r])
 		}
 		if !skipControls {
